@@ -621,7 +621,7 @@ fn first_unfilled(a: &Analysis<'_>, only_while_retry_waits: bool) -> Option<Unfi
             }
         }
         let mut retry_waiting: Option<String> = None;
-        // retries waiting: conservative — only count those with zero delay known, finished before t_fin
+        // retries waiting: conservative — only those whose delay is known (none, or one that has certainly elapsed)
         for ((name, _), idxs) in &a.by_scenario {
             let sc = &a.st.scenarios[name];
             let Some(last) = idxs.iter().map(|i| &a.attempts[*i]).filter(|t| t.finished.is_some_and(|f| f < q.events)).last() else { continue };
@@ -640,7 +640,13 @@ fn first_unfilled(a: &Analysis<'_>, only_while_retry_waits: bool) -> Option<Unfi
                     if !certainly_waiting {
                         serial_ready = true;
                     }
-                } else if zero_delay && fin_at < t_fin {
+                } else if fin_at < t_fin
+                    && (zero_delay
+                        // a known delay that had certainly elapsed when the completing scenario finished: the
+                        // deadline is stamped right after the failed attempt's Finished event (no yield in
+                        // between), so it lies within a few clock reads of `fin_at + d`
+                        || matches!(sc.known_delay, Some(Some(d)) if fin_at.saturating_add(d).saturating_add(RETRY_READY_MARGIN_NS) < t_fin))
+                {
                     ready += 1;
                 }
             }
@@ -655,6 +661,10 @@ fn first_unfilled(a: &Analysis<'_>, only_while_retry_waits: bool) -> Option<Unfi
     }
     None
 }
+
+/// Slack granted between "failed attempt's Finished stamp + delay" and the retry being ready (the
+/// simulated clock advances 1 ns per read; the deadline is stamped a few reads after the event).
+const RETRY_READY_MARGIN_NS: u64 = 10_000;
 
 // ---------------------------------------------------------------------------------------------
 // C06 — concurrency limit
